@@ -42,7 +42,10 @@ fn main() {
         eprintln!("usage: mcverif <gen-seq|run-seq|...> [--opt val]...");
         std::process::exit(2);
     }
-    std::panic::set_hook(Box::new(|_| {}));
+    // panics of the code under test are data: counted, not printed
+    std::panic::set_hook(Box::new(|_| {
+        tcp::PANICS.fetch_add(1, std::sync::atomic::Ordering::SeqCst);
+    }));
     let a = args_map(&args[2..]);
     let get = |k: &str, d: &str| a.get(k).cloned().unwrap_or_else(|| d.to_string());
     match args[1].as_str() {
@@ -60,7 +63,21 @@ fn main() {
                 if let Some(p) = progs.as_mut() {
                     writeln!(p, "{}", prog::history_to_json(&h)).unwrap();
                 }
-                events += seq::run_history(&h, &mut out, with_phys, i + 1);
+                if a.contains_key("pairs") {
+                    // C19: the same program with every quiet bit flipped must leave the same items behind
+                    events += seq::run_history_final(&h, &mut out, 2 * i + 1, i + 1, "a");
+                    let mut h2 = h.clone();
+                    for s in h2.steps.iter_mut() {
+                        if let prog::Step::Cmd(c) = s {
+                            if !matches!(c.op.as_str(), "noop" | "version" | "stat") {
+                                c.q = !c.q;
+                            }
+                        }
+                    }
+                    events += seq::run_history_final(&h2, &mut out, 2 * i + 2, i + 1, "b");
+                } else {
+                    events += seq::run_history(&h, &mut out, with_phys, i + 1);
+                }
             }
             out.flush().unwrap();
             println!("{{\"histories\": {}, \"events\": {}}}", count, events);
@@ -79,6 +96,19 @@ fn main() {
                 let v: serde_json::Value = serde_json::from_str(&line).expect("bad program line");
                 let h = prog::history_from_json(&v);
                 n += 1;
+                if a.contains_key("pairs") {
+                    events += seq::run_history_final(&h, &mut out, 2 * n - 1, n, "a");
+                    let mut h2 = h.clone();
+                    for s in h2.steps.iter_mut() {
+                        if let prog::Step::Cmd(c) = s {
+                            if !matches!(c.op.as_str(), "noop" | "version" | "stat") {
+                                c.q = !c.q;
+                            }
+                        }
+                    }
+                    events += seq::run_history_final(&h2, &mut out, 2 * n, n, "b");
+                    continue;
+                }
                 events += seq::run_history(&h, &mut out, with_phys, n);
             }
             out.flush().unwrap();
